@@ -417,6 +417,7 @@ def run(ctx):
             cells.add((r["op"], r["action"], r["actor"], r["dirdown"], r["level"], target_kind(r)))
             for e in effs:
                 kind, _, h = e.partition(":")
+                h = h.split(":")[-1]
                 if h and c.unhexs(h) != r["actor"]:
                     other_allowed[r["op"]] += 1
         if "unparsed" in l or cls == "?":
